@@ -1,2 +1,6 @@
 import Fcgi
 import Fcgi.Props.C15
+import Fcgi.Props.C16
+import Fcgi.Props.C17
+import Fcgi.Props.C19
+import Fcgi.Props.C20
